@@ -4,7 +4,7 @@ from . import common as K
 
 LEVEL = 'proof'
 EXPLANATION = ('Deductive part: the real bodies of mathstr.__add__/__sub__/__neg__/__mul__, codegen_product and '
-               'codegen_gp are interpreted symbolically; the loop of codegen_product carries the invariant '
+               'codegen_gp, do_codegen (canonical re-sort keeps keys and expressions paired; positional letters bound in operand order; func_builder / lambdify branch) and func_builder (emitted source parses as the positional unpacking + return list; concrete shapes) are interpreted symbolically; the loop of codegen_product carries the invariant '
                '"result dict == fold over the pairs processed so far" (ghost Has/Spec) for key tuples of any length '
                'and order, abstract sign table and ring; codegen_gp must instantiate it with the table sign, key '
                'kx^ky and no filter.  Bounded part (labelled, never counted as discharged): symcoef runs the real '
@@ -13,7 +13,7 @@ TRUSTED = ['z3 5.1 (python API), cvc5 1.0.3 / z3 4.8.12 CLIs as fall-back', 'kvc
            'CPython ast module']
 ASSUMPTIONS = [K.ASSUME_CPYTHON, K.ASSUME_RING, K.ASSUME_GRAMMAR, K.ASSUME_TAIL, K.ASSUME_TSIGNS,
                'precondition WF(mv): the keys of an operand are pairwise distinct valid blade indices']
-ASSUMED = ['lambdify / KingdonPrinter / func_builder->compile/exec: returns f with f(*vals)[i] == value of exprs[i]']
+ASSUMED = ['lambdify / KingdonPrinter: returns f with f(*vals)[i] == value of exprs[i] (sympy printing, cse); compile()/exec() of the func_builder text (its structure is checked with Python\'s own parser)']
 
 
 def build(H, tier, seed):
@@ -22,6 +22,9 @@ def build(H, tier, seed):
     C.vc_product_operator(H, 'gp')
     from contracts import dispatch_c as D
     D.vc_binary_chain(H, ['gp'])
+    from contracts import codegen_glue_c as G
+    G.vc_do_codegen(H)
+    G.vc_func_builder(H)
 
 
 def standins(tier, seed):
